@@ -302,6 +302,9 @@ def run(ctx):
     all_keys = sorted(set().union(*[set(c) for c in cores.values()])) if cores else []
     n_sib = 0
     for key in all_keys:
+        if key[0] == 'pool':
+            continue        # the pools are held to their own contract, copy by copy, by POOL (allocation, growth range, release);
+                            # a sibling comparison of three four-line functions adds only sensitivity to their spelling
         have = [t for t in trees if key in cores[t]]
         if len(have) < 2:
             # present in one copy only: look for the same form under another name elsewhere (a rename), else extra
